@@ -5,7 +5,7 @@ usage: seedtest.py <seed dir with patch.diff + demo.cpp> <property id> [more ids
 import sys, os, subprocess, json, shutil, time
 
 def sh(cmd, **kw):
-    return subprocess.run(cmd, shell=True, capture_output=True, text=True, **kw)
+    return subprocess.run(cmd, shell=True, capture_output=True, text=True, errors='replace', **kw)
 
 def main():
     args = [a for a in sys.argv[1:] if not a.startswith('--')]
@@ -45,7 +45,7 @@ def main():
         for p in props:
             t0 = time.time()
             env = dict(os.environ); env['VERIF_REPO'] = scratch
-            r = subprocess.run('cd /verif && ./check %s --tier quick' % p, shell=True, capture_output=True, text=True, env=env)
+            r = subprocess.run('cd /verif && ./check %s --tier quick' % p, shell=True, capture_output=True, text=True, errors='replace', env=env)
             lines = [l for l in r.stdout.splitlines() if l.startswith(('VIOLATION', 'PASS', 'FAIL', 'INFRA', 'KNOWN', '  {'))]
             res['checks'][p] = {'exit': r.returncode, 'wall_s': round(time.time() - t0, 1), 'lines': [l[:400] for l in lines[:6]]}
     finally:
